@@ -1500,7 +1500,7 @@ func main() {
 	}
 
 	// ---- wide encodings: boundary + random
-	nw := e.N(60000, 1500000)
+	nw := e.N(60000, 1000000)
 	for i := 0; i < nw; i++ {
 		enc := hx.Pick(rng, wideEncs)
 		if rng.Chance(1, 12) {
@@ -1540,7 +1540,7 @@ func main() {
 
 	// ---- tuples: 1..6 fields, every nullability pattern, all build routes
 	all := append(append([]val.Encoding{}, wideEncs...), narrowEncs...)
-	np := e.N(2500, 60000)
+	np := e.N(2500, 20000)
 	for i := 0; i < np; i++ {
 		nf := rng.Range(1, 6)
 		desc := make([]col, nf)
